@@ -1,0 +1,34 @@
+//! Verification hooks (feature `verif-hooks`, off by default): re-exports of
+//! the otherwise private shell functions and types so an external harness can
+//! call the event-loop arms directly, in any order, under a virtual clock.
+//! Thin wrappers only; no behaviour of its own.
+
+#![allow(unused_imports, dead_code)]
+
+use srtla_core::connection::SrtlaConnection;
+
+pub use super::connections::reconnect_uplink;
+pub use super::housekeeping::handle_housekeeping;
+pub use super::packet_handler::{
+    InstantForwarder, drain_packet_queue, flush_all_batches, forward_via_connection,
+    handle_srt_packet, handle_uplink_packet, process_connection_events,
+};
+pub use super::reload::{IpReload, ReloadRefusal, analyze_ip_reload_text};
+#[cfg(unix)]
+pub use super::reload::analyze_ip_reload;
+pub use super::sequence::SequenceTracker;
+pub use super::uplink::{
+    ConnIo, ConnIoMap, ConnectionId, ReaderHandle, UplinkPacket, create_uplink_channel,
+    sync_readers,
+};
+pub use super::uplink_recv::process_uplink_packet;
+
+/// `attribute_nak` is `pub(crate)`; forward to it unchanged.
+pub fn attribute_nak(
+    connections: &mut [SrtlaConnection],
+    seq_tracker: &SequenceTracker,
+    nak: u32,
+    current_time_ms: u64,
+) -> Option<usize> {
+    super::packet_handler::attribute_nak(connections, seq_tracker, nak, current_time_ms)
+}
